@@ -15,7 +15,12 @@ def q8(g):
 def run(ctx):
     rng = vlib.Rng(ctx.seed)
     th = ctx.thorough()
-    progs = amlgen.all_variants(rng) + amlgen.all_pairs(rng)        # every constructor in every child position
+    # (a)+(b) the specification's own bounded tree generator: every constructor / operator variant in every child
+    # position of every other constructor (depth 2 complete); TLC checks the round trip on each and prints it
+    gen = vlib.model_check(ctx, "MC_AmlGen.cfg", "MC_AmlGen.tla", workers=8)
+    progs = list(gen.replays)
+    ctx.extra["tlc_generated_trees"] = len(progs)
+    progs += amlgen.all_variants(rng) + amlgen.all_pairs(rng)       # the same shapes again with seeded random arguments
     if th:
         progs += amlgen.all_pairs(vlib.Rng(ctx.seed + 1)) + amlgen.all_pairs(vlib.Rng(ctx.seed + 2))
     for _ in range(20000 if th else 2500):
